@@ -30,6 +30,8 @@ CLAIMS = {
          "fault-point enumeration = stateless schedule enumeration with a low-priority one-operation fault thread", SCHED_NOTE),
  "C17": ("model_checking", "Histories: BFS over start/stop/stop-force/unload/member-exit sequences for each mode against a lifecycle model (state, live members, callback counts, reasons) on the real node; all dependency graphs x failing member positions; races: every schedule within the bound of concurrent member deaths, stop vs crash, start vs start, stop vs stop, member death during start-up.", "3 C17",
          "explicit-state BFS over operation histories + stateless schedule enumeration on the real node", SCHED_NOTE),
+ "C18": ("model_checking", "Histories: BFS over publish/forged publish/link/unlink/monitor/demonitor/unregister/register/owner kill/subscriber exit sequences for buffer sizes 0..2 with and without notifications against a subscription model (publications handled, buffer returned by subscribe, exit/down on event end, EventStart/EventStop). Races: every schedule within the bound of subscribe vs publish, two token holders publishing, register vs zero-token publish.", "3 C18",
+         "explicit-state BFS over operation histories + stateless schedule enumeration on the real node", SCHED_NOTE + " Remote subscribers are exercised by the C12/C14 harnesses only as far as stated there."),
  "C19": ("model_checking", "Every schedule within the bound of 1-2 clients sending/calling through a real act.Pool (size 1-3, bounded worker mailboxes, parked worker, dead worker, worker crash, Add/RemoveWorkers); exactly-once, original-sender, own-reply, drop-accounting and ring-membership oracles.", "3 C19",
          "stateless schedule enumeration (delay bounding) on the instrumented implementation", SCHED_NOTE),
  "C05": ("model_checking", "Every schedule within the bound of single causes and racing pairs of termination causes (handler error, panic, Kill, parent/stranger exit signals, busy and waiting targets) on the real node; terminate-once, finality and reason oracles incl. link/monitor observers.", "3 C05",
